@@ -120,5 +120,49 @@ CHECKS["C09"] = dict(
     assumptions=["rectangle widths/heights may change by floating-point rounding of moveMinX/moveMinY (<=1e-8 relative), as the library's own assertion allows"],
 )
 
+CHECKS["C03"] = dict(
+    stages=[stage("C03", harness="ROUTE", props=["C03."], quick=dict(cases=4000, size=100, shards=12), thorough=dict(cases=300000, size=100, shards=16), case_timeout=600)],
+    technique="rapidcheck property-based testing: generated lattice scenes routed by libavoid, judged by an independent exact "
+              "segment-versus-convex-interior predicate, with a clearance-based path-existence oracle as the guard",
+    level_text="Generated scenes of interior-disjoint lattice rectangles and convex polygons (30% 'tight': butted and edge-aligned), "
+               "1-6 connectors with free endpoints, both routing modes, buffer 0/1/2.5, random penalties, nudging distance and all "
+               "boolean routing options.  After processTransaction() both displayRoute() and route() of every connector must have "
+               ">=2 points, start/end exactly at the attachments and have no segment through the open interior of a shape that "
+               "does not contain an endpoint - required whenever the harness's own search finds a path with positive clearance.",
+    level_note="Connectors for which only a zero-clearance corridor exists are not judged (libavoid deliberately blocks sight lines "
+               "between butted shapes) and are counted.  Pin attachments are covered by C11, hyperedges by C12.",
+    rule="rapidcheck-generated scenes (<=12 shapes quick, <=16 thorough); non-trivial = the straight segment between a judged "
+         "connector's endpoints passes through a shape interior, so the route has to bend; distinct by FNV-1a of the case text",
+    min_nontrivial=dict(quick=1000, thorough=50000),
+    assumptions=["orthogonal routing is judged against the shapes themselves but path existence against their bounding boxes (what the orthogonal router uses)"],
+)
+
+CHECKS["C04"] = dict(
+    stages=[stage("C04", harness="ROUTE", props=["C04."], quick=dict(cases=3000, size=100, shards=12), thorough=dict(cases=200000, size=100, shards=16), case_timeout=600)],
+    technique="rapidcheck property-based testing against an independent visibility-graph Dijkstra reference model (with bend states for the penalised variant)",
+    level_text="Generated scenes of separated (gap >= 1) lattice rectangles and convex polygons, polyline routing, all penalties 0: "
+               "route length must equal the harness's own visibility-graph shortest path to 1e-6.  With segmentPenalty in {1,5,50}: "
+               "length + penalty*bends must lie between the optimum over all visibility paths and the optimum over paths whose "
+               "bends wrap the corner they turn at (the library prunes other bends); the evidence reports how often the two coincide.",
+    level_note="Oracle visibility uses the same exact interior predicate as C03 (long double, 1e-9 margin on lattice input).",
+    rule="rapidcheck-generated separated scenes (<=10 shapes quick, <=14 thorough), <=4 connectors; non-trivial = the route has >=1 bend; distinct by FNV-1a of the case text",
+    min_nontrivial=dict(quick=800, thorough=40000),
+    assumptions=[],
+)
+
+CHECKS["C05"] = dict(
+    stages=[stage("C05", harness="ROUTE", props=["C05."], quick=dict(cases=8000, size=100, shards=12), thorough=dict(cases=300000, size=100, shards=16), case_timeout=600)],
+    technique="rapidcheck property-based testing against an independent Hanan-grid Dijkstra over (node, heading); exhaustive table check of the bend estimator against a 0-1 BFS",
+    level_text="Generated scenes of separated lattice rectangles, orthogonal connectors with free endpoints and random ConnDirFlags, six "
+               "segment penalties, optional shape buffer: every segment of route() and displayRoute() is exactly axis-parallel and "
+               "length + penalty*bends of route() equals the optimum of the harness's own grid search to 1e-6.  Avoid::bends is checked "
+               "exhaustively (48 relative positions x 4 x 4 directions) to never exceed the true minimum number of bends.",
+    level_note="The grid oracle works on bounding boxes inflated by the buffer distance; curr==dest is outside the estimator's domain.",
+    rule="rapidcheck-generated scenes (<=9 rectangles quick, <=12 thorough), <=3 connectors; non-trivial = the optimum has >=1 bend and a rectangle meets the endpoints' bounding box; plus the 768-entry estimator table (each entry distinct by construction)",
+    exhaustive=False,
+    min_nontrivial=dict(quick=800, thorough=40000),
+    assumptions=[],
+)
+
 for _k in CHECKS:
     NOT_APPLICABLE.pop(_k, None)
